@@ -64,14 +64,23 @@ func (o *c35) step(line string) string {
 			break
 		}
 	}
+	atLimit := 0
+	for _, i := range missing {
+		if st.CheckRateLimit(s.u.get(i).chunk) != nil {
+			atLimit++
+		}
+	}
 	out := o.v.do("%s", line)
+	if atLimit > 0 {
+		o.v.r.Count(fmt.Sprintf("c35:missing-chunk-of-producer-at-limit,served=%v,ok=%v", served && pre, strings.HasPrefix(out, "ok")))
+	}
 	sig := fmt.Sprintf("n=%d missing=%d script=%d pre=%v served=%v", len(vb.certIdx), len(missing), len(script), pre, served)
 	if len(missing) > 0 {
 		o.v.r.Distinct(sig + " " + strings.Join(script, ","))
 	}
 	o.v.r.Count("c35:" + fmt.Sprintf("missing=%d,served=%v,ok=%v", len(missing), served && pre, strings.HasPrefix(out, "ok")))
 	if out == "hang" {
-		o.v.r.Violation("accept-hangs", "Accept did not return within 10s: %s (%s)", line, sig)
+		o.v.r.Violation("accept-hangs", "Accept did not return within 20s: %s (%s)", line, sig)
 		return out
 	}
 	if out == "panic" {
@@ -109,6 +118,12 @@ func TestVerifC35(t *testing.T) {
 		vCfg(5, 1000000), "mk 1 0 2 1 1", "accept 1 1", "abs", // remote fetch of the right chunk
 		vCfg(12, 1000000), "mk 1 0 2 1 2", "accept 1 1 2", "abs", "getbytes 3 1", // a different valid chunk first
 		vCfg(12, 1000000), "addlocal 2 n", "mk 1 0 2 1 2 4 1", "accept 1 E 11 4 7 1", "abs",
+		// lagging validator: it missed chunk 1 and its block, meanwhile it stored newer pending chunks
+		// of the same producer up to exactly its pending-weight limit (355+282 = 637), resp. beyond
+		// it; the chunk required by the accepted block must still be fetched and stored.
+		vCfg(40, 637), "vremote 2", "vremote 4", "rate 1", "mk 1 0 2 1 1", "accept 1 1", "abs",
+		vCfg(40, 600), "addlocal 2 n", "addlocal 4 c", "rate 1", "mk 1 0 2 1 1 7", "accept 1 E 1 7", "abs",
+		vCfg(40, 300), "addlocal 3 n", "rate 1", "mk 1 0 2 1 5 1", "accept 1 5 S", "accept 1 1", "abs",
 	} {
 		o.step(l)
 	}
@@ -116,7 +131,13 @@ func TestVerifC35(t *testing.T) {
 	nu := len(v.sut.u.chunks)
 	for n := 0; n < nseq; n++ {
 		w := []int{5, 12, 40, 40}[rng.Intn(4)]
-		o.step(vCfg(w, 1000000))
+		// every third sequence runs under a small per-producer pending-weight limit (chunks weigh
+		// 282..428 bytes), so that producers sit at or beyond their limit when a chunk is fetched
+		limit := 1000000
+		if n%3 == 0 {
+			limit = []int{282, 400, 637, 700, 1000, 1065}[rng.Intn(6)]
+		}
+		o.step(vCfg(w, limit))
 		m := rng.Intn(5)
 		if m > 0 {
 			o.step(fmt.Sprintf("setmin %d", m))
@@ -133,6 +154,18 @@ func TestVerifC35(t *testing.T) {
 				o.step(fmt.Sprintf("addlocal %d c", i))
 				o.step(fmt.Sprintf("setmin %d %d", m, i)) // accepted only
 			}
+		}
+		if limit < 1000000 {
+			// fill: newer chunks of both producers attested while the node was lagging
+			for k := 0; k < 4; k++ {
+				i := 1 + rng.Intn(vValid)
+				if rng.Bool() {
+					o.step(fmt.Sprintf("vremote %d", i))
+				} else {
+					o.step(fmt.Sprintf("addlocal %d n", i))
+				}
+			}
+			o.step(fmt.Sprintf("rate %d", 1+rng.Intn(vValid)))
 		}
 		ts := m
 		parent := 0
